@@ -365,8 +365,6 @@ theorem tr_applyFunction_succ {n} (h : ∀ node, Tr (eval n node)) (fn args) :
         intro curState
         refine tr_bind (tr_modify (fun _ => rfl)) ?_
         intro _
-        refine tr_bind tr_getFrame ?_
-        intro fr0
         refine tr_bind (h _) ?_
         intro res
         refine tr_bind tr_getFrame ?_
